@@ -315,7 +315,7 @@ func boundTarget(p *Prog, bound *ssa.Function) *ssa.Function {
 
 // Reachable returns the set of module functions reachable from roots through static calls and closures,
 // and through interface invokes resolved by CHA restricted to module types.
-func (p *Prog) Reachable(g *CallGraph, roots []*ssa.Function, viaIface func(c *ssa.CallCommon) []*ssa.Function) map[*ssa.Function]bool {
+func (p *Prog) Reachable(g *CallGraph, roots []*ssa.Function, viaIface func(c *ssa.CallCommon) []*ssa.Function, stop map[*ssa.Function]bool) map[*ssa.Function]bool {
 	seen := map[*ssa.Function]bool{}
 	var work []*ssa.Function
 	push := func(f *ssa.Function) {
@@ -330,6 +330,9 @@ func (p *Prog) Reachable(g *CallGraph, roots []*ssa.Function, viaIface func(c *s
 	for len(work) > 0 {
 		f := work[len(work)-1]
 		work = work[:len(work)-1]
+		if stop[f] {
+			continue
+		}
 		for _, c := range g.Callees[f] {
 			push(c)
 		}
